@@ -486,6 +486,11 @@ func (e *Enc) atReturn(fr *Frame, x *ssa.Return, vs []Val) {
 				continue
 			}
 		}
+		if st.Nth >= 0 && returnOrdinal(fr.fn, x) != st.Nth {
+			// nth K on a return site: the K-th return statement of the function in source order
+			// (all return statements are counted, whatever they return)
+			continue
+		}
 		sctx := &ExprCtx{e: e, fr: fr, st: fr.curState, old: e.entry, results: results, resNames: resNames, block: fr.curB, idx: fr.curI, fc: e.fc, lenient: true}
 		e.siteHits[st]++
 		g := e.safeBool(sctx, st.Assert, "site "+e.siteLabel(st))
@@ -807,4 +812,24 @@ func (e *Enc) siteLookup(fr *Frame, x *ssa.Lookup) {
 		e.curSiteInstr = x
 		e.assertSite(fr, st, ctx)
 	}
+}
+
+// returnOrdinal: position of a return statement among the function's return statements, in
+// source order.
+func returnOrdinal(fn *ssa.Function, x *ssa.Return) int {
+	var rs []*ssa.Return
+	for _, b := range fn.Blocks {
+		for _, in := range b.Instrs {
+			if r, ok := in.(*ssa.Return); ok {
+				rs = append(rs, r)
+			}
+		}
+	}
+	sort.SliceStable(rs, func(i, j int) bool { return rs[i].Pos() < rs[j].Pos() })
+	for i, r := range rs {
+		if r == x {
+			return i
+		}
+	}
+	return -1
 }
